@@ -1048,8 +1048,11 @@ func (c *c06Ctx) driveMulAcc(f reflect.Value) {
 	}
 	for it, ln := range lens {
 		alpha := clonePtr(p4[(it*3+4)%len(p4)])
-		scale := reflect.MakeSlice(reflect.SliceOf(fr), ln[0], ln[0])
-		res := reflect.MakeSlice(reflect.SliceOf(e4), ln[1], ln[1])
+		// windows into larger arrays at every offset modulo 4 (a fresh allocation is 64-byte aligned, a window is not:
+		// vector kernels must not assume alignment)
+		off := it % 4
+		scale := reflect.MakeSlice(reflect.SliceOf(fr), ln[0]+off+3, ln[0]+off+3).Slice(off, off+ln[0])
+		res := reflect.MakeSlice(reflect.SliceOf(e4), ln[1]+off+3, ln[1]+off+3).Slice(off, off+ln[1])
 		sc, rs := []any{}, []any{}
 		for i := 0; i < ln[0]; i++ {
 			scale.Index(i).Set(p0[(i+it)%len(p0)].Elem())
